@@ -31,10 +31,10 @@ pub fn cases(ctx: &Ctx) -> Vec<Case> {
     let mut rng = Rng::derive(ctx.seed, &[0xC13]);
     let mut v = Vec::new();
     let n = match (k.is_prod(), ctx.quick()) {
-        (false, true) => 700,
-        (false, false) => 20000,
-        (true, true) => 48,
-        (true, false) => 1200,
+        (false, true) => 4000,
+        (false, false) => 60000,
+        (true, true) => 320,
+        (true, false) => 6000,
     };
     let mut sizes = crate::gen::small_sizes();
     sizes.extend([Sz::new(0, 1, -17), Sz::new(0, 1, 0), Sz::new(0, 2, 5)]);
